@@ -30,6 +30,14 @@ def run(ctx):
         th = rng.randrange(4); bs = rng.choice([1, 2, 4])
         lines.append('enc 1 %d %d %d - %s' % (1 | (4 << 8) | (th << 12) | (bs << 20), rng.choice([0, 3]), rng.randrange(99999), d.hex() or '-')); meta.append((d, 'mt threads %d block %d' % (th + 1, bs * 4096), 'xz'))
         lines.append('enc 2 %d 0 0 - %s' % (rng.choice([0, 2, 6]), d.hex() or '-')); meta.append((d, 'alone', 'alone'))
+    # declared dictionary size: sizes that are not of the form 2^n / 3*2^(n-1) must be rounded UP in the LZMA2 properties byte;
+    # data that repeats at a distance between the next lower encodable size and the requested size has matches there
+    for dsz, per in ((20480, 18000), (4097, 4097), (40000, 36000), (5000, 4600), (98304 + 7, 98304 + 3)):
+        if ctx.quick() and dsz > 50000: continue
+        blk = bytes(rng.getrandbits(8) for _ in range(per))
+        d = blk + blk[:min(per, 3000)]
+        for mfm in ('mf=bt4,mode=normal,nice=273', 'mf=hc4,mode=fast,nice=64'):
+            lines.append('enc 4 %d 0 %d lzma2:dict=%d,%s %s' % (1 << 8, rng.randrange(99999), dsz, mfm, d.hex())); meta.append((d, 'stream dict=%d, repeat distance %d' % (dsz, per), 'xz'))
     # single-call encoders with exactly bound(n) bytes of output space, incompressible data around chunk boundaries
     for n in [0, 1, 2, 4095, 65535, 65536, 65537, 131071, 131072, 131073] + ([] if ctx.quick() else [200000, 262144, 1 << 20]):
         d = bytes(rng.getrandbits(8) for _ in range(n))
